@@ -412,7 +412,69 @@ def check(sess, arena, checker, outcome, plan):
     return found
 
 
+def detached_bursts(case):
+    """several blocks are torn down forcefully (volatile holders closed when their scope ends,
+    holders whose scope is aborted by a failure) within one time step, in turns that follow each
+    other closely: every one of them hands back what it held - at quiescence the supply is
+    complete"""
+    import usim
+    from usim import time, Scope, instant, Capacities, Resources
+    from ..probe import Session
+    rng = random.Random('%s/%s/c12-burst' % (case['seed'], case['index']))
+    holders = rng.randint(2, 6)
+    kind = rng.choice(['capacities', 'resources'])
+    supply = holders + rng.randint(0, 2)
+    res = (Capacities if kind == 'capacities' else Resources)(a=supply, b=supply)
+    gaps = [rng.choice([0, 0, 1, 1, 2, 3]) for _ in range(holders)]     # turns between closings
+    how = [rng.choice(['volatile', 'volatile', 'failing-scope', 'claimed']) for _ in range(holders)]
+    levels_seen = []
+
+    class Leave(Exception):
+        pass
+
+    async def holds(number):
+        request = res.claim(a=1) if how[number] == 'claimed' else res.borrow(a=1, b=1)
+        async with request:
+            await usim.eternity
+
+    async def owner(number):
+        try:
+            async with Scope() as scope:
+                scope.do(holds(number), volatile=how[number] != 'failing-scope')
+                await (time + 1)
+                for _ in range(sum(gaps[:number + 1])):
+                    await instant
+                if how[number] == 'failing-scope':
+                    raise Leave
+        except Leave:
+            pass
+
+    async def main():
+        async with Scope() as scope:
+            for number in range(holders):
+                scope.do(owner(number))
+        await (time + 1)
+        levels_seen.append({key: getattr(res.levels, key) for key in ('a', 'b')})
+
+    sess = Session()
+    outcome = sess.run(main())
+    violations = [dict(v) for v in sess.violations if v['mechanism'].startswith('kernel-')]
+    what = '%d holders of %s(a=%d, b=%d) torn down %s, %s turns apart, in one time step' % (
+        holders, kind, supply, supply, how, gaps)
+    if outcome[0] != 'ok':
+        violations.append({'mechanism': 'c12:run-failed', 'msg': '%s: %r' % (what, outcome[1])})
+    elif levels_seen != [{'a': supply, 'b': supply}]:
+        violations.append({'mechanism': 'c12:not-conserved',
+                           'msg': '%s: levels at quiescence %s' % (what, levels_seen)})
+    for vio in violations:
+        vio['case'] = dict(case)
+    return {'evals': 1, 'sigs': [sess.signature()], 'violations': violations, 'sample': None,
+            'stats': {'detached_bursts': 1, 'activations': sess.n}}
+
+
 def run_case(case):
+    if case['index'] % 10 == 6 and case.get('plan') is None:
+        return detached_bursts(case)
     rng = random.Random('%s/%s/c12-inj' % (case['seed'], case['index']))
     return inject.explore(case, build_for(case), rng, check, case['tier'],
                           quick_samples=12, max_plans=400)
